@@ -145,10 +145,27 @@ def is_role_op(o: int) -> bool:
     return 10 <= o < 80
 
 
+TOP_ROLE = 8         # role digit meaning "the entity's first top-level role" (with sub-roles: matches the holders of any of them)
+
+
+def is_proj_op(o: int) -> bool:
+    """80+r: household.project(x, role): a household vector onto the members holding role r, 0 for the others"""
+    return 80 <= o < 90
+
+
+def _role_of(entity, digit: int):
+    """role digit -> role object: a flattened role; 9 = no filter (None); 8 = the first top-level role"""
+    if digit == NO_ROLE:
+        return None
+    if digit == TOP_ROLE:
+        return entity.roles[0]
+    return entity.flattened_roles[digit]
+
+
 def _role_op(o, x, grp):
     """`grp`: the household population, or (person formula) the projector `person.household`, whose
     results are projected back onto the persons"""
-    role = None if (o >= 50 and o % 10 == NO_ROLE) else grp.entity.flattened_roles[o % 10]
+    role = _role_of(grp.entity, o % 10)
     if o < 20:
         return grp.sum(x, role=role)
     if o < 30:
@@ -175,6 +192,9 @@ def _f1(o, x, pop, E):
         return _role_op(o, x, pop if E == 1 else pop.simulation.household)
     if o == 2:
         return pop.project(x) if E == 1 else pop.household.project(x)
+    if is_proj_op(o):
+        grp = pop if E == 1 else pop.simulation.household
+        return grp.project(x, role=_role_of(grp.entity, o % 10))
     if o == 3:
         return np.where(x != 0, 1, 0)
     if o >= 100:
@@ -233,6 +253,10 @@ def _compile(e, E: int, ent: int, ctx: _Ctx):
                 return _to_int_array(pop(name, q, **kw))
             if E == 1 and ent == 0:
                 return _to_int_array(pop.members(name, q, **kw))
+            if E == 0 and ent == 1:
+                # a household variable read from a person formula under a projection with a role filter
+                # (`household.project(x, role)`): the household population is taken from the simulation
+                return _to_int_array(pop.simulation.household(name, q, **kw))
             raise RuntimeError("group variable read from a person formula outside a projection")
         return f
     if k == "o1":
@@ -254,7 +278,18 @@ def _compile(e, E: int, ent: int, ctx: _Ctx):
             def f(pop, period, ro=ro, fx=fx):
                 return _to_int_array(np.asarray(_role_op(ro, fx(pop, period), pop.household)))
             return f
-        inner_ent = 0 if (o == 1 or is_role_op(o)) else (1 if o == 2 else ent)
+        if (20 <= o < 30 and E == 1 and a[0] == "v" and not a[3] and a[1] < len(ctx.case.vars)
+                and ctx.case.vars[a[1]].vtype == "enum" and ctx.case.vars[a[1]].entity == 0):
+            # household.value_from_person(<enum variable of the members>, role): the EnumArray itself goes through the
+            # operation (result re-wrapped as an EnumArray, default = first item), as in `household.head("status", period)`
+            _, w, pt, _add = a
+            name = f"v{w}"
+
+            def f(pop, period, o=o, name=name, pt=pt):
+                raw = pop.members(name, _transform(pt, period))
+                return _to_int_array(pop.value_from_person(raw, pop.entity.flattened_roles[o % 10]))
+            return f
+        inner_ent = 0 if (o == 1 or is_role_op(o)) else (1 if (o == 2 or is_proj_op(o)) else ent)
         fa = _compile(a, E, inner_ent, ctx)
 
         def f(pop, period, o=o, fa=fa):
